@@ -161,6 +161,7 @@ class System:
         self.dead = set()
         self.registration_listeners = {}
         self.trace = []
+        self.sent = []  # chronological log of sends: (src key, dst key, message)
         self.faults = {}  # hooks for C09
 
     # -- construction
@@ -179,6 +180,7 @@ class System:
         return addr
 
     def send(self, src, dst, msg):
+        self.sent.append((src.addressDetails, dst.addressDetails, msg))
         self.chan[(src.addressDetails, dst.addressDetails)].append((src, msg))
 
     # -- events
